@@ -1873,6 +1873,11 @@ namespace awkward {
                 + std::string("): __array__ = \"categorical\" only allowed for "
                               "IndexedArray and IndexedOptionArray"));
       }
+      const std::string contentcheck =
+        content.get()->validityerror(path + std::string(".content"));
+      if (contentcheck != std::string("")) {
+        return contentcheck;
+      }
       if (!content.get()->is_unique()) {
         return (std::string("at ") + path + std::string(" (") + classname()
             + std::string("): __array__ = \"categorical\" requires contents "
